@@ -175,7 +175,9 @@ def t2l_case(draw):
         "empty_label": opt(st.sampled_from(["__empty__", "none", ""])),
         "value_only": opt(st.booleans()),
         "label_fn": draw(st.sampled_from([False, False, True])),
-        "label_mapping": opt(st.sampled_from(["hit_first", "miss"])),
+        "label_mapping": opt(st.sampled_from(["hit_first", "miss", "lookalike"])),
+        # the tags carry full vocabulary terms (name, label, definition) instead of key-derived ones
+        "full_terms": draw(st.integers(0, 2)) == 0,
     }
 
 
@@ -189,15 +191,27 @@ def t2l_kwargs(spec, tags):
     if spec["label_fn"]:
         kw["label_fn"] = lambda t: "F(" + t.value + ")"
     if spec["label_mapping"] is not None:
-        kw["label_mapping"] = {tags[0]: "MAPPED"} if (spec["label_mapping"] == "hit_first" and tags) else {_tag("zzz", "zzz"): "MAPPED"}
+        kw["label_mapping"] = _label_mapping(spec, tags)
     return kw
+
+
+def _label_mapping(spec, tags):
+    if spec["label_mapping"] == "hit_first" and tags:
+        return {tags[0]: "MAPPED"}
+    if spec["label_mapping"] == "lookalike":
+        # entries for the key-derived tags with the same label and value as the tags at hand: the very tags when these are key-derived,
+        # other tags (another term) when they carry full vocabulary terms - a mapping applies to the tags it lists
+        return {_tag(t.term.label, t.value): f"LOOKALIKE({t.value})" for t in tags} or {_tag("zzz", "zzz"): "MAPPED"}
+    return {_tag("zzz", "zzz"): "MAPPED"}
 
 
 def ref_label_from_tag(spec, tag, tags, force_value_only=False):
     if spec["label_fn"]:
         return "F(" + tag.value + ")"
-    if spec["label_mapping"] == "hit_first" and tags and tag == tags[0]:
-        return "MAPPED"
+    if spec["label_mapping"] is not None:
+        for listed, lab in _label_mapping(spec, tags).items():
+            if listed == tag:
+                return lab
     if force_value_only or spec["value_only"]:
         return tag.value
     return f"{tag.term.label}:{tag.value}"
@@ -224,6 +238,10 @@ def check_t2l(spec, ctx):
     from soundevent.io.crowsetta import label_from_tags
 
     tags = [_tag(k, v) for k, v in spec["tags"]]
+    if spec.get("full_terms"):
+        from soundevent import data as _data
+
+        tags = [_data.Tag(term=_data.Term(name=f"vocab:{k}", label=k, definition=f"{k} as the vocabulary defines it"), value=v) for k, v in spec["tags"]]
     kw = t2l_kwargs(spec, tags)
     exp = ref_label_from_tags(spec, tags)
     nondefault = sum(1 for k in ("select_by_key", "index", "separator", "empty_label", "value_only", "label_mapping") if spec[k] is not None) + int(spec["seq_label_fn"]) + int(spec["label_fn"])
